@@ -5,6 +5,7 @@ import (
 
 	"github.com/openebs/jiva/replica"
 	"github.com/openebs/jiva/util"
+	"github.com/openebs/jiva/zzfs"
 )
 
 var zzStates = []string{"initial", "closed", "open", "dirty", "rebuilding", "error"}
@@ -122,4 +123,48 @@ func ZZ_C14_ReplicaPairs() {
 	zzAssert(err == nil, "C14.replica.pair.GetReplica-fails-after-"+h1.name+"+"+h2.name)
 	zzAssert(rs.ZZLockDepth() == 0, "C14.replica.pair.lock-left-held-after-follow-up")
 	zzReach("C14.replica.pair.done")
+}
+
+// a request that needs the server's write lock (delete, open, close, snapshot, any set*
+// action) arrives while another request is being served: requests hold the server lock
+// across file I/O (status reads volume.meta and the revision counter), which is where
+// the second one gets to run.  Both must be answered; sync.RWMutex gives the waiting
+// writer preference, so a handler that read-locks twice would wedge the replica here.
+func ZZ_C14_ReplicaWriterArrives() {
+	states := []string{"open", "closed", "dirty"}
+	state := states[zzConcretize(zzChoice("state", len(states)))]
+	rs, _ := replica.ZZServer(state, 1)
+	s := NewServer(rs)
+	h := zzHandlers[zzConcretize(zzChoice("handler", len(zzHandlers)))]
+	zzReadMode = zzConcretize(zzChoice("body", 3))
+	zzVarID = "1"
+	zzAction = h.action
+	gate := make(chan struct{})
+	done := make(chan bool, 1)
+	opened := false
+	go func() {
+		<-gate
+		rs.ZZWriteLockUnlock() // what every write-locking request does first
+		done <- true
+	}()
+	zzfs.OnStep = func() {
+		if !opened && rs.ZZLockDepth() > 0 {
+			opened = true
+			close(gate)
+			zzYield()
+		}
+	}
+	if h.action != "" && zzNondetBool("via-checkAction") {
+		checkAction(s, h.f(s))(&zzRW{}, zzRequest())
+	} else {
+		h.f(s)(&zzRW{}, zzRequest())
+	}
+	zzfs.OnStep = nil
+	if !opened {
+		close(gate)
+	}
+	zzSettle()
+	zzAssert(len(done) == 1, "C14.replica.writer-request-never-served-after-"+h.name)
+	zzAssert(rs.ZZLockDepth() == 0, "C14.replica.lock-left-held-after-"+h.name)
+	zzReach("C14.replica.writer-arrives.done")
 }
